@@ -120,7 +120,7 @@ Print Assumptions Props.C05.C05_site_typescript_struct.
 Goal forall (uc : unicode) (cfg : ts_config) (a : ralias),
     dom_C05 (atype a) = true -> known_C05 TypeScript (Proofs.C05.c05_ts_cfg cfg) (agenerics a) (atype a) = None ->
     forall st, exists d st', ts_decl_of uc cfg (ItAlias a) st = Ok (d, st') /\
-      exists docs name u, d = TSAlias docs name (agenerics a) (c05_erase TypeScript (Proofs.C05.c05_ts_cfg cfg) (agenerics a) (atype a)) u.
+      exists docs name u n, d = TSAlias docs name (agenerics a) (c05_erase TypeScript (Proofs.C05.c05_ts_cfg cfg) (agenerics a) (atype a)) u n.
 Proof. exact Props.C05.C05_site_typescript_alias. Qed.
 Print Assumptions Props.C05.C05_site_typescript_alias.
 Goal forall (uc : unicode) (cfg : ts_config) (k : rconst),
@@ -132,7 +132,7 @@ Print Assumptions Props.C05.C05_site_typescript_const.
 Goal forall (cfg : ts_config) (g : list str) (ue : bool) (t : rtype) (vsh : vshared),
     dom_C05 t = true -> known_C05 TypeScript (Proofs.C05.c05_ts_cfg cfg) g t = None ->
     forall st, exists v st', ts_variant_of cfg g ue (VTuple t vsh) st = Ok (v, st') /\
-      exists docs w o, v = TVTuple docs w (c05_erase TypeScript (Proofs.C05.c05_ts_cfg cfg) g t) o.
+      exists docs w o n, v = TVTuple docs w (c05_erase TypeScript (Proofs.C05.c05_ts_cfg cfg) g t) o n.
 Proof. exact Props.C05.C05_site_typescript_payload. Qed.
 Print Assumptions Props.C05.C05_site_typescript_payload.
 Goal forall (cfg : ts_config) (g : list str) (ue : bool) (fs : list rfield) (vsh : vshared),
